@@ -12,6 +12,7 @@ overwrite / delete / bucket-delete workloads with and without reopen and with a 
 -/
 import Jamm.Proofs.FreelistLemmas
 import Jamm.Proofs.PlateauLemmas
+import Jamm.Proofs.FreelistCover
 set_option linter.unusedSectionVars false
 
 namespace Jamm.Props.C10
@@ -72,5 +73,23 @@ example :
     let evs : List Ev := [.commitW { freed := [3], requests := [1] }, .commitW { freed := [4], requests := [1] },
                           .commitW { freed := [3], requests := [1] }, .commitW { freed := [4], requests := [1] }]
     ((s0.runEvs evs).map (·.numPages)) = some 5 := by decide
+
+/-- no page is lost: along every history of protocol-abiding events, every page below the high-water mark is
+reachable from the current snapshot, free, or pending (so every page a transaction gives up is available
+again once no reader needs it) -/
+theorem no_page_is_lost (s : Sys) (evs : List Ev) (s' : Sys) (hi : s.invB = true) (hcov : s.Covers)
+    (h : s.runEvs evs = some s') : s'.Covers :=
+  covers_run s evs s' hi hcov h
+
+/-- … and in exactly one of the three -/
+theorem each_page_in_exactly_one_set (s : Sys) (hi : s.invB = true) (hcov : s.Covers) (p : Nat)
+    (h2 : 2 ≤ p) (hp : p < s.numPages) :
+    (p ∈ s.cur.reach ∧ p ∉ s.shared.free ∧ p ∉ s.shared.pendingPages) ∨
+    (p ∉ s.cur.reach ∧ p ∈ s.shared.free ∧ p ∉ s.shared.pendingPages) ∨
+    (p ∉ s.cur.reach ∧ p ∉ s.shared.free ∧ p ∈ s.shared.pendingPages) :=
+  exactly_one s hi hcov p h2 hp
+
+example : ({ cur := { txId := 0, reach := [2, 3] }, shared := {}, readers := [], numPages := 4 } : Sys).Covers :=
+  covers_init
 
 end Jamm.Props.C10
